@@ -157,6 +157,8 @@ pub enum ROp {
     Panic,
     /// busy work (schedule shaping)
     Work(u16),
+    /// loads the leaves m0 .. m{n-1} (tolerant): many never-seen assets in one load
+    Many(u16),
 }
 
 pub fn recipe_bytes(ops: &[ROp]) -> Vec<u8> {
@@ -640,6 +642,7 @@ fn node_load(kind: Kind, cache: AnyCache, id: &SharedString) -> Result<String, B
         let ops: Vec<ROp> = serde_json::from_slice(&bytes)?;
         let mut out = String::new();
         interp(cache, tag, &ops, &mut out)?;
+        let out = cap_value(out);
         if recording_token() != tok0 {
             violation(format!("the dependency record of {kind:?} {id:?} was not the one installed at the start of its load any more when the load ended"));
         }
@@ -647,6 +650,15 @@ fn node_load(kind: Kind, cache: AnyCache, id: &SharedString) -> Result<String, B
     })();
     guard.finish(res.is_ok(), None);
     res
+}
+
+/// Values embed the values they looked up; with look-up cycles they would grow without bound.
+pub fn cap_value(v: String) -> String {
+    if v.len() > 3000 {
+        format!("#{:016x}/{}", crate::engine::fnv(&v), v.len())
+    } else {
+        v
+    }
 }
 
 fn render_err(e: &dyn std::fmt::Display) -> String {
@@ -790,6 +802,17 @@ pub fn interp(cache: AnyCache, tag: u32, ops: &[ROp], out: &mut String) -> Resul
                     std::hint::spin_loop();
                 }
             }
+            ROp::Many(n) => {
+                for i in 0..*n {
+                    match lookup_load(cache, tag, Kind::Leaf, &format!("m{i}")) {
+                        Ok(v) => out.push_str(&format!("M{i}={v};")),
+                        Err(_) => {
+                            note_tolerated(tag);
+                            out.push_str(&format!("M{i}=!;"));
+                        }
+                    }
+                }
+            }
         }
         if recording_token() != tok0 {
             violation(format!("the calling thread's dependency record changed across {op:?}"));
@@ -916,7 +939,7 @@ impl ModelCtx<'_> {
                 };
                 let mut out = String::new();
                 match self.interp(tag, &ops, &mut out) {
-                    Ok(()) => Fresh::Ok(out),
+                    Ok(()) => Fresh::Ok(cap_value(out)),
                     Err(f) => f,
                 }
             }
@@ -1019,6 +1042,15 @@ impl ModelCtx<'_> {
                 ROp::Fail => return Err(Fresh::Err),
                 ROp::Panic => return Err(Fresh::Panic),
                 ROp::Work(_) => {}
+                ROp::Many(n) => {
+                    for i in 0..*n {
+                        match self.load(tag, Kind::Leaf, &format!("m{i}")) {
+                            Fresh::Ok(v) => out.push_str(&format!("M{i}={v};")),
+                            Fresh::Err => out.push_str(&format!("M{i}=!;")),
+                            other => return Err(other),
+                        }
+                    }
+                }
             }
         }
         Ok(())
